@@ -142,7 +142,7 @@ func history(r *ev.Run, rng *rand.Rand, store string, sample bool) {
 	nPeers := 2 + rng.Intn(3)
 	peerPool := make([]map[wallet.BackendID]wire.Address, nPeers)
 	for i := range peerPool {
-		peerPool[i] = gen.WireAddr(rng)
+		peerPool[i] = gen.WireAddrAny(rng)
 	}
 	nCh := 3 + rng.Intn(4)
 	slots := make([]*chanSlot, nCh)
